@@ -138,7 +138,27 @@ Expect(r) == CASE r.k = "out" -> [k |-> "out", pieces |-> r.pieces, log |-> r.lo
 RECURSIVE Kinds(_)
 Kinds(its) == IF its = <<>> THEN "" ELSE Head(its).k \o "," \o Kinds(Tail(its))
 
-EmitCase == res.k = "none" \/
+\* ---- an output tag prints the value its expression has WHEN THE TAG IS REACHED: an array assigned to later in the same block,
+\* loop body or stored block does not change what an earlier tag printed.  (Layer A has no mutable values -- index assignment is
+\* unspec there -- so these programs carry their results, derived from the sentence above.)
+RawOut(cs) == [k |-> "out", pieces |-> <<[k |-> "raw", s |-> cs]>>, log |-> <<>>]
+SetA0(v) == Code(IdxAssign(Id("a"), IntL(0), v))
+Snapshots ==
+  << [n |-> "loop", want |-> <<"1", ";", "2", ";">>,
+      prog |-> <<Let("a", Arr(<<IntL(0)>>)), Emit(For("", "x", Arr(<<IntL(1), IntL(2)>>), <<SetA0(Id("x")), Emit(Id("a")), Text(<<";">>)>>))>>],
+     [n |-> "if", want |-> <<"1", "|", "2">>,
+      prog |-> <<Let("a", Arr(<<IntL(1)>>)), Emit(If(Bool(TRUE), <<Emit(Id("a")), SetA0(IntL(2)), Text(<<"|">>), Emit(Id("a"))>>))>>],
+     [n |-> "contentfor", want |-> <<"1", "2">>,
+      prog |-> <<Let("a", Arr(<<IntL(1)>>)), Code(CallB("contentFor", <<Str(<<"x">>)>>, <<Emit(Id("a")), SetA0(IntL(2)), Emit(Id("a"))>>)), Emit(Call("contentOf", <<Str(<<"x">>)>>))>>],
+     [n |-> "top", want |-> <<"1", "2">>,
+      prog |-> <<Let("a", Arr(<<IntL(1)>>)), Emit(Id("a")), SetA0(IntL(2)), Emit(Id("a"))>>],
+     [n |-> "fn", want |-> <<"1", "2", "/", "2">>,
+      prog |-> <<Let("a", Arr(<<IntL(1)>>)), Let("f", FnLit(<<>>, <<Emit(Id("a")), SetA0(IntL(2)), Emit(Id("a"))>>)), Emit(Call("f", <<>>)), Text(<<"/">>), Emit(Id("a"))>>] >>
+EmitSnapshots == ~(items = <<>> /\ place = "none") \/
+                 \A i \in 1..Len(Snapshots) :
+                    PrintT("CASE " \o ToJson([gen |-> "GenText", src |-> Unparse(Snapshots[i].prog), data |-> Data,
+                                               shape |-> "snapshot:" \o Snapshots[i].n, expect |-> RawOut(Snapshots[i].want)]))
+EmitCase == EmitSnapshots /\ (res.k = "none" \/
             PrintT("CASE " \o ToJson([gen |-> "GenText", src |-> Unparse(Whole(place)), data |-> Data,
-                                       shape |-> place \o ":" \o Kinds(items), expect |-> Expect(res)]))
+                                       shape |-> place \o ":" \o Kinds(items), expect |-> Expect(res)])))
 =============================================================================
